@@ -55,6 +55,12 @@ def build_doc(rng):
             texts[hole] = ""
         dt_id, prop_id = nid, nid + 1
         nid += 2
+        shared = None
+        defined_so_far = [e_ for e_ in enums if e_["kind"] != "none" and e_.get("prop") is not None]
+        if defined_so_far and rng.random() < 0.3:
+            # two enumeration types may share one definition node (both have a HasProperty reference to the same EnumStrings / EnumValues variable)
+            shared = rng.choice(defined_so_far)
+            kind, prop_id = shared["kind"], shared["prop"]
         refs = '<Reference ReferenceType="i=45" IsForward="false">i=29</Reference>'
         if kind != "none":
             refs += '<Reference ReferenceType="i=46">ns=1;i=%d</Reference>' % prop_id
@@ -74,6 +80,9 @@ def build_doc(rng):
             # ... or a value that is no definition at all (finding D-C17c, repaired: it used to be read as one)
             note = rng.choice(["", "", '<Value><String xmlns="%s">hello</String></Value>' % T, '<Value><ListOfInt32 xmlns="%s"><Int32>7</Int32></ListOfInt32></Value>' % T])
             out.append('<UAVariable NodeId="ns=1;i=%d" BrowseName="1:Note%d" DataType="i=12"><DisplayName>Note</DisplayName><References><Reference ReferenceType="i=40">i=68</Reference></References>%s</UAVariable>' % (extra_prop, extra_prop, note))
+        if shared is not None:
+            enums.append({"dt": dt_id, "kind": kind, "name": name, "dict": dict(shared["dict"]), "prop": prop_id})
+            continue
         if kind == "strings":
             items = "".join('<LocalizedText><Locale>en</Locale><Text>%s</Text></LocalizedText>' % escape(t) for t in texts)
             out.append('<UAVariable NodeId="ns=1;i=%d" BrowseName="EnumStrings" DataType="i=21" ValueRank="1"><DisplayName>EnumStrings</DisplayName>'
@@ -87,7 +96,8 @@ def build_doc(rng):
                        '<Value><ListOfExtensionObject xmlns="%s">%s</ListOfExtensionObject></Value></UAVariable>' % (prop_id, dt_id, T, items))
         if kind == "values":
             texts = [t.strip() for t in texts]          # xmltodict strips the text of EnumValueType bodies
-        enums.append({"dt": dt_id, "kind": kind, "name": name, "dict": {k_: t_ for k_, t_ in zip(keys, texts) if k_ != hole}})
+        enums.append({"dt": dt_id, "kind": kind, "name": name, "dict": {k_: t_ for k_, t_ in zip(keys, texts) if k_ != hole},
+                      "prop": prop_id if kind != "none" else None})
     expect = {}
     for v in range(rng.randint(1, 7)):
         vid = nid
@@ -179,9 +189,15 @@ def one_case(run, sc, i):
     from opcua_tools.nodeset_parser import parse_xml_dir
     rng = run.rng
     text, expect, enums = build_doc(rng)
-    case = {"files": {"e.xml": text}}
+    files = {"e.xml": text}
+    if rng.random() < 0.25:
+        # the order of the base document's nodes is arbitrary: here Enumeration is its first node (it gets the internal id 0)
+        b = minibase.base_xml()
+        line = [l for l in b.splitlines() if 'NodeId="i=29"' in l][0]
+        files["Opc.Ua.NodeSet2.xml"] = b.replace(line + "\n", "", 1).replace("</Aliases>\n", "</Aliases>\n" + line + "\n", 1)
+    case = {"files": files}
     d = sc.sub("c%d" % i)
-    sc.write(d, {"e.xml": text}, with_base=True)
+    sc.write(d, files, with_base=True)
     has_enum_val = any("int" in e or "list" in e for e in expect.values())
     run.case({"doc": i, "enums": [e["kind"] for e in enums], "vars": len(expect)}, nontrivial=has_enum_val, tag="doc:%d-enums" % len(enums))
     run.compared += 1
